@@ -12,6 +12,22 @@ COMMON_NOTE = ("Trusted base: Lean 4.33 kernel; axioms ⊆ {propext, Classical.c
                "by exact-float inputs or bounded by a tolerance. ")
 
 CLAIMS = {
+    'C16': dict(
+        text="Theorems (Props/C16.lean, 28, unbounded, none partial): for every row function, detected magnitude and neuron kind / connector "
+             "state, xform's stack → transform once → slice-by-counts returns exactly 'coordinates of nodes/vertices/points and connectors "
+             "mapped by the transform, every other column, faces, links and meta data unchanged' (helper points of k-less dotprops included); "
+             "sequences compose in order; the flip is x ↦ lo+hi−x — the reflection about the template midplane — and an involution on points, "
+             "skeletons and meshes; face re-winding is an involution, reverses every normal and with a reflection preserves signed volume; the "
+             "helper-point tangent is the normalised difference (squared-norm form); radius / units / soma radius follow 10^m with the physical "
+             "radius invariant; symmetrize's masked assignment = conditional map; the run-time checkers are sound. Tie: exact-arithmetic "
+             "correspondence (dyadic affine, sequences, a non-affine map, 10^k scalings) over all neuron types, lists, DataFrames, arrays, "
+             "Volume, Trimesh; mirror_brain / mirror / symmetrize_brain over all axes, bounding-box layouts and warp modes; input untouched.",
+        note="_guess_change's random sample is not modelled: its result is recorded and passed to the model as a parameter; sqrt normalisation, "
+             "×10**m and pint to_compact compared at relative 2^-30; KD-tree / SVD tangent regeneration external (unit norm checked); voxel "
+             "resampling oracle-only. Three open findings (integer coordinates truncated on mirroring, symmetrize_brain drops k-less tangents, "
+             "xform raises when all rows coincide).",
+        technique="Lean 4 proof (stack/slice exactness, mirror involution, rewinding) + exact differential correspondence",
+        ref="§5 C16"),
     'C04': dict(
         text="One model, three back-ends: every case of the C05 (distances, segments), C10 (reroot, cut, subset), C12 (pruning) — and C17/C11/C13 "
              "when built — correspondence streams is executed with navis switched in-process to fastcore, igraph-only and networkx-only, each "
